@@ -28,18 +28,20 @@ not modelled.  A Go panic is the explicit response `Resp.crash`.
 `Fixes` selects, per `fix:` commit, the code before (`false`) / after (`true`) it:
   comma       genCertTemplateFromCSR rejects a subject ID containing the SAN separator ','
   capDefault  IstioCA.sign caps a defaulted lifetime at maxCertTTL
+  swapCleanup multicluster Component.clusterDeleted also drops a pending swap of the deleted cluster
 -/
 namespace IstioModel.C09
 
 structure Fixes where
-  comma      : Bool
-  capDefault : Bool
+  comma       : Bool
+  capDefault  : Bool
+  swapCleanup : Bool := true
   deriving DecidableEq, Repr
 
 /-- the code as it is in /repo now -/
-def Fixes.all : Fixes := ⟨true, true⟩
+def Fixes.all : Fixes := ⟨true, true, true⟩
 /-- the pinned tree before any `fix:` commit of this property -/
-def Fixes.none : Fixes := ⟨false, false⟩
+def Fixes.none : Fixes := ⟨false, false, false⟩
 
 /-! ## Strings: `strings.Split` / `strings.Join` / `strings.HasPrefix` with a one-byte separator -/
 
@@ -410,7 +412,8 @@ structure Pod where
   uid  : String
   sa   : String
   node : String
-  failed : Bool := false   -- status.phase == Failed: filtered out by the informer's field selector
+  phase : String := ""     -- status.phase: "" Running, "P" Pending, "S" Succeeded, "F" Failed (the informer's
+                           -- field selector `status.phase!=Failed` drops only the last)
   deriving DecidableEq, Repr
 
 /-- `spiffe.ParseIdentity`: (trust domain, namespace, service account) -/
@@ -439,9 +442,53 @@ def clusterImpersonationOK (trusted : List (String × String)) (pods : List Pod)
         else if cp.sa ≠ caller.podSA then false
         else pods.any (fun p => indexed p ∧ p.ns = ns ∧ p.sa = sa ∧ p.node = cp.node)
 
+/-- one per-cluster node authorizer (`ClusterNodeAuthorizer`): the pods of its cluster and whether
+    its informer has synced (an unsynced informer is empty) -/
+structure Comp where
+  pods   : List Pod
+  synced : Bool := true
+  deriving DecidableEq, Repr
+
+def Comp.view (c : Comp) : List Pod := if c.synced then c.pods else []
+
+/-- What the multicluster `Component` (pkg/kube/multicluster/component.go) holds for one cluster ID:
+    `cur` = `clusters[id]`, `swap` = `pendingSwaps[id]` = (old component if any, new component). -/
+structure Slot where
+  cur  : Option Comp := none
+  swap : Option (Option Comp × Comp) := none
+  deriving DecidableEq, Repr
+
+/-- `Component.ForCluster` + `pendingSwap.active`: a pending swap is consulted first; the old
+    component answers until the new one has synced.  `none` = no authorizer for the cluster. -/
+def Slot.active (s : Slot) : Option (List Pod) :=
+  match s.swap with
+  | some (old, new) =>
+    if new.synced then some new.view
+    else
+      match old with
+      | some o => some o.view
+      | none => some new.view
+  | none => s.cur.map Comp.view
+
+/-- `clusterAdded` (and the new informer syncing) -/
+def Slot.added (s : Slot) (pods : List Pod) : Slot := { s with cur := some { pods := pods } }
+
+/-- `clusterUpdated`: a new, not yet synced component replaces `clusters[id]`; the previous one is
+    kept in a pending swap -/
+def Slot.updated (s : Slot) (pods : List Pod) : Slot :=
+  { cur := some { pods := pods, synced := false }, swap := some (s.cur, { pods := pods, synced := false }) }
+
+/-- the new component synced and the controller noticed (`pendingSwap.HasSynced`): swap finalized -/
+def Slot.synced (s : Slot) : Slot :=
+  { cur := s.cur.map (fun c => { c with synced := true }), swap := none }
+
+/-- `clusterDeleted`; `cleanup` = the `fix:` commit that also drops a pending swap of the cluster -/
+def Slot.deleted (cleanup : Bool) (s : Slot) : Slot :=
+  { cur := none, swap := if cleanup then none else s.swap }
+
 structure NodeAuth where
   trusted  : List (String × String)        -- CA_TRUSTED_NODE_ACCOUNTS as (namespace, name)
-  clusters : List (String × List Pod)      -- per-cluster pod informers
+  clusters : List (String × Slot)          -- per-cluster node authorizers
   deriving DecidableEq, Repr
 
 /-- `kubeauth.ExtractClusterID` -/
@@ -450,18 +497,21 @@ def clusterID (ctx : Ctx) : String :=
   | some [x] => x
   | _ => ""
 
-def lookupCluster (id : String) : List (String × List Pod) → Option (List Pod)
+def lookupCluster (id : String) : List (String × Slot) → Option Slot
   | [] => none
   | (k, v) :: rest => if k = id then some v else lookupCluster id rest
 
 /-- what the pod informer (field selector `status.phase!=Failed`) holds of the cluster's pods -/
-def informerPods (pods : List Pod) : List Pod := pods.filter (fun p => !p.failed)
+def informerPods (pods : List Pod) : List Pod := pods.filter (fun p => p.phase ≠ "F")
 
 /-- `MulticlusterNodeAuthorizor.authenticateImpersonation` -/
 def impersonationOK (na : NodeAuth) (ctx : Ctx) (caller : KubeInfo) (requested : String) : Bool :=
   match lookupCluster (clusterID ctx) na.clusters with
   | none => false
-  | some pods => clusterImpersonationOK na.trusted (informerPods pods) caller requested
+  | some slot =>
+    match slot.active with
+    | none => false
+    | some pods => clusterImpersonationOK na.trusted (informerPods pods) caller requested
 
 /-! ## `Server.CreateCertificate` -/
 
@@ -479,7 +529,7 @@ structure Server where
   deriving DecidableEq, Repr
 
 /-- `New()` installs the node authorizer only for a non-empty trusted-account set. -/
-def Server.new (ca : CA) (trusted : List (String × String)) (clusters : List (String × List Pod)) : Server :=
+def Server.new (ca : CA) (trusted : List (String × String)) (clusters : List (String × Slot)) : Server :=
   { ca := ca, nodeAuth := if trusted.isEmpty then none else some { trusted := trusted, clusters := clusters } }
 
 inductive Code
